@@ -152,14 +152,24 @@ pub fn exec_action(w: &Rc<World>, a: &Action) {
             let hid = w.next_hid();
             let n = st.fold(ins, norm(*init), fold_fn(w, hid, *f));
             let clean = all_clean(w, &hs);
-            w.register(NodeH::I(n), RK::Fold { srcs: hs, init: norm(*init), f: *f }, None, true, clean, hb);
+            // a fold over no inputs is a plain constant node
+            let rk = if hs.is_empty() { RK::Const(MV::I(norm(*init))) } else { RK::Fold { srcs: hs, init: norm(*init), f: *f } };
+            w.register(NodeH::I(n), rk, None, true, clean, hb);
         }
         Action::NewZip { a, b } => {
             let (Some(x), Some(y)) = (w.pick(Pool::I, *a), w.pick(Pool::I, *b)) else { return skipped(w, "no node") };
             let hb = hb_of(w, &[x, y]) + 1;
             if !fits(w, hb) { return skipped(w, "height") }
             let n = incr_i(w, x).unwrap().zip(&incr_i(w, y).unwrap());
-            w.register(NodeH::P(n), RK::Zip { a: x, b: y }, None, true, all_clean(w, &[x, y]), hb);
+            // zip of two constants is itself a constant node (no dependencies)
+            let rk = {
+                let nodes = w.nodes.borrow();
+                match (&nodes[x].rk, &nodes[y].rk) {
+                    (RK::Const(MV::I(a)), RK::Const(MV::I(b))) => RK::Const(MV::P(*a, *b)),
+                    _ => RK::Zip { a: x, b: y },
+                }
+            };
+            w.register(NodeH::P(n), rk, None, true, all_clean(w, &[x, y]), hb);
         }
         Action::NewMapRef { src, proj } => {
             let Some(s) = w.pick(Pool::P, *src) else { return skipped(w, "no node") };
